@@ -8,6 +8,7 @@
 -/
 import Proofs.Metadata
 import Proofs.Parsers
+import Proofs.NetworkMeta
 namespace C08
 open Esdt
 
@@ -198,10 +199,30 @@ theorem quantity_functions_keep_metadata (env : Env) (c : Call) (ctx ctx' : Ctx)
   · obtain ⟨tok, nb, _, t, v, h0, h1, _, _, _, hw, _⟩ := (nftBurn_effect env c ctx).elim h
     exact ⟨tok, nb, t, v, _, h0, h1, hw⟩
 
--- PARTIAL: the remaining functions (fungible ledger functions, freeze/wipe/pause/roles, account-level functions,
+-- PARTIAL (what is not a theorem): chains through MultiESDTNFTTransfer at history level; and for the remaining functions
+-- (fungible ledger functions, freeze/wipe/pause/roles, account-level functions,
 -- SaveKeyValue) are shown not to write outside their footprint (C05) and, where they write token entries, to write
 -- `storedForm` of the decoded entry with only value/properties changed (Proofs/Ledger `OneWrite`); that none of them
 -- rewrites an NFT entry's metadata on ANY history additionally needs the well-formedness invariant of C15 (fungible keys
 -- hold no metadata) and is decided by the metadata oracle on generated histories.
+
+/-- FULL (history level, single NFT / SFT transfers): along ANY history of ESDTNFTTransfer transactions (same-shard or
+    cross-shard), deliveries of the emitted messages in any order, failed deliveries turned into refunds, and refunds —
+    whatever else is transferred in between, aliasing token identifiers included — every copy of an NFT keeps the metadata
+    it started with: if every entry stored under key `k` (in any account of any shard) and every payload in flight for
+    `k` carries metadata `m0` in the initial world, so does every one in every reachable world.  (ESDTNFTAddURI /
+    ESDTNFTUpdateAttributes are not steps of this world: they are the two functions that change metadata, `addURI_exact`,
+    `updateAttributes_exact`.)  Hypotheses on the initial world only (`NWorldInv`, see C01.nft_conservation_history). -/
+theorem metadata_intact_history (m0 : MetaData) (k : Bytes) (e : Env) (steps : List NStep) (w : NFTWorld)
+    (hI : NWorldInv e w) (hM : MdInv m0 k w) (hok : ∀ s ∈ steps, NFTStepOK s) :
+    MdInv m0 k (nftRun e steps w) :=
+  nftRun_md m0 k e steps w hI hM hok
+
+/-- what `MdInv` says, spelled out for a stored entry of a reachable world -/
+theorem metadata_intact_entry (m0 : MetaData) (k : Bytes) (e : Env) (steps : List NStep) (w : NFTWorld)
+    (hI : NWorldInv e w) (hM : MdInv m0 k w) (hok : ∀ s ∈ steps, NFTStepOK s)
+    (A : Accts) (hA : A ∈ (nftRun e steps w).shards) (a : Bytes) (t : Token)
+    (hne : A.read a k ≠ []) (hdec : decToken (A.read a k) = some t) : t.md = some m0 :=
+  (metadata_intact_history m0 k e steps w hI hM hok).shards A hA a t hne hdec
 
 end C08
